@@ -141,14 +141,24 @@ def walk(e, probs):
         return r
     if isinstance(f, (ListNode, MultiSetNode, MappingNode)) and isinstance(t, (ListNode, MultiSetNode, MappingNode)):
         return _walk_container(e, f, t, subs, probs)
-    if isinstance(e, EditCollection) or True:
-        # generic compound edit over unknown node types: check the sum only
-        r = Rec(e, 'compound:' + _name(e), f, t)
-        r.cost = _cost(e, probs)
-        r.subs = [walk(s, probs) for s in subs]
+    # generic component-wise compound edit (PyObjEdit, DataClassEdit, ...): sub-edit i pairs child i with child i
+    r = Rec(e, 'compound:' + _name(e), f, t)
+    r.cost = _cost(e, probs)
+    r.subs = [walk(s, probs) for s in subs]
+    fc, tc = list(f.children()), list(t.children())
+    if len(r.subs) == len(fc) == len(tc) and all(x.kind not in ('remove', 'insert') for x in r.subs):
+        for i, x in enumerate(r.subs):
+            if x.f is not fc[i] or x.t is not tc[i]:
+                probs.add('structure', f'component-endpoints:{_name(e)}', f"sub-edit {i} does not pair component {i} of the two nodes")
+                break
+        pf, pt = plain(f), plain(t)
+        r.pf = (pf[0], pf[1], tuple(x.pf for x in r.subs)) if pf[0] == 'node' else pf
+        r.pt = (pt[0], pt[1], tuple(x.pt for x in r.subs)) if pt[0] == 'node' else pt
+    else:
+        probs.add('structure', f'component-arity:{_name(e)}', f"{len(r.subs)} sub-edits for nodes with {len(fc)} and {len(tc)} components")
         r.pf, r.pt = plain(f), plain(t)
-        _sum(r, probs)
-        return r
+    _sum(r, probs)
+    return r
 
 
 def _sum(r, probs):
